@@ -20,6 +20,10 @@ def lines_of(evs, grace):
         elif k == "LoggerCreated":
             out.append({"k": "logger", "lg": e["lg"], "sinks": [x for x in e["sinks"].split(",") if x], "lvl": e.get("lvl", 4),
                         "sys": e.get("clock", "system") == "system", "fresh": bool(e["fresh"])})
+        elif k == "CreateRet":
+            out.append({"k": "created", "lg": e["lg"], "ptr": e["ptr"], "sinks": [x for x in e.get("sinks", "").split(",") if x]})
+        elif k == "GetRet":
+            out.append({"k": "got", "lg": e["lg"], "ptr": e["ptr"]})
         elif k == "LogCall":
             kind = "btnoinit" if (e["kind"] == "macro" and e["lvl"] == 9) else e["kind"]
             out.append({"k": "logcall", "t": e["t"], "id": e["id"], "lg": e["lg"], "lvl": e["lvl"], "kind": kind})
